@@ -47,6 +47,8 @@ def snap(o, depth=0, seen=None):
     if isinstance(o, _SKIP) or callable(o) and not hasattr(o, "__dict__"):
         return ("fn", getattr(o, "__name__", type(o).__name__))
     tn = type(o).__module__ + "." + type(o).__name__
+    if "RandomState" in tn or "Generator" in tn:
+        return ("rng",)
     if tn.startswith("numba"):
         try:
             return ("seq", "numba", tuple(snap(x, depth + 1, seen) for x in o))
@@ -79,7 +81,7 @@ def same(a, b, rtol=0.0, atol=0.0):
                 return bool(np.allclose(x, y, rtol=rtol, atol=atol, equal_nan=True))
             return bool(np.array_equal(x, y)) or (x.dtype.kind in "fc" and bool(np.array_equal(x, y, equal_nan=True)))
         if a and a[0] == "v" and isinstance(a[2], float) and isinstance(b[2], float):
-            if a[2] != a[2] and b[2] != b[2]:
+            if (a[2] != a[2] and b[2] != b[2]) or a[2] == b[2]:
                 return True
             return abs(a[2] - b[2]) <= atol + rtol * abs(b[2])
         return all(same(x, y, rtol, atol) for x, y in zip(a, b))
